@@ -20,6 +20,7 @@ def jobs(res):
         engine.export_family("t3s")
         engine.export_family("n4")
         engine.export_family("c4")
+        engine.export_family("h3")
 
     return [
         shell,
